@@ -800,7 +800,7 @@ func scriptCaseRun(t *testing.T, c *scriptCase) {
 		if obs.end > endAt || (obs.res == "ECTX" && obs.end != endAt) {
 			fail("cancel-late", fmt.Sprintf("call returned at %d, the context ended at %d", obs.end, c.Cancel))
 		}
-		if obs.end == endAt && obs.res != "ECTX" {
+		if obs.end == endAt && obs.res != "ECTX" && !c.DefaultPolicy { // (random pauses may end exactly then)
 			fail("cancel-result", "call ended with the context but did not return its error")
 		}
 	}
@@ -978,7 +978,10 @@ var statusPool = []int{200, 201, 202, 204, 400, 401, 403, 404, 405, 408, 409, 41
 // Retry-After values: plain non-negative integers, and values no reasonable reading turns into
 // a delay.  (Left out on purpose: "+3", padded " 3", HTTP-dates -- honouring or rejecting them is
 // a legitimate choice the model should not pin down.)
-var retryAfterPool = []string{"", "", "", "1", "2", "120", "0", "-5", "abc", "99999999999999999999", "9223372036", "9223372037", "3.5", "0x10", "1_0", "007", "-", "18446744073709551617", "-99999999999999999999", "5s", "٣"}
+var retryAfterPool = []string{"", "", "", "1", "2", "120", "0", "-5", "abc", "99999999999999999999", "9223372036", "9223372037", "3.5", "0x10", "1_0", "007", "-", "18446744073709551617", "-99999999999999999999", "5s", "٣",
+	// strconv.ParseInt's own reading (the code as written): a sign is accepted, blanks are not;
+	// an HTTP-date is not understood (not honoured: falls back to the exponential backoff)
+	"+3", "+", " 3", "3 ", "Wed, 21 Oct 2015 07:28:00 GMT"}
 
 func genBehaviour(r *common.Rand, forAuth bool, evenLat bool) behaviour {
 	b := behaviour{Kind: "S", Read: -1}
@@ -1108,6 +1111,20 @@ func genScript(r *common.Rand, big bool) *scriptCase {
 	ns := r.Intn(2*(maxInt(c.MaxRetry, 0)+1) + 3)
 	for i := 0; i < ns; i++ {
 		c.Script = append(c.Script, genBehaviour(r, c.Op != "T", true))
+	}
+	// partial reads relative to the body: around the middle, the last byte, buffer-sized pieces
+	if n := len(c.Data) / 2; n > 12 || c.BigLen > 0 {
+		if c.BigLen > 0 {
+			n = c.BigLen
+		}
+		for i := range c.Script {
+			if c.Script[i].Read >= 0 && r.Chance(2, 3) {
+				c.Script[i].Read = common.Pick(r, []int{n - 1, n / 2, n/2 + 1, 512, 4096, 32 * 1024, 32*1024 + 1, n - 4096})
+				if c.Script[i].Read < 0 || c.Script[i].Read > n {
+					c.Script[i].Read = n / 3
+				}
+			}
+		}
 	}
 	if c.Op == "U" || c.Op == "u" {
 		// blob push: some answers for the POST, its 202, some answers for the PUT, its 201
@@ -1257,6 +1274,7 @@ func genPoint(r *common.Rand) *pointCase {
 var enumAlphabet = []behaviour{
 	{Kind: "S", Code: 503, Read: -1}, {Kind: "S", Code: 429, RetryAfter: "1", Read: 2, Lat: 10}, {Kind: "TO", Read: -1, Lat: 6}, {Kind: "ER", Read: 1}, {Kind: "E", Err: "op-emfile", Read: -1}, {Kind: "E", Err: "url-net10", Read: 2},
 	{Kind: "S", Code: 401, Chal: 1, Read: -1}, {Kind: "S", Code: 401, Chal: 2, Read: 3, Lat: 4}, {Kind: "S", Code: 200, Read: -1}, {Kind: "S", Code: 404, Read: 0},
+	{Kind: "S", Code: 201, Read: -1},
 }
 
 // enumScripts: every behaviour sequence up to maxLen x body kinds x stacks; with
@@ -1277,6 +1295,13 @@ func enumScripts(t *testing.T, maxLen int, allCancel bool) {
 					if !allCancel {
 						scriptCaseRun(t, c)
 						run.Count("enumerated")
+						if op != "W" && (body == "R" || body == "O") && prefix[len(prefix)-1].Code == 201 {
+							// the same answers against a manifest push (auth client: buffering rule)
+							m := *c
+							m.UnknownLen, m.Manifest = false, map[string]string{"A": "M", "T": "m"}[op]
+							scriptCaseRun(t, &m)
+							run.Count("enumerated_manifest")
+						}
 						continue
 					}
 					c.Min, c.Max, c.Tbl, c.Dflt = 4, 20, []int64{2, 50}, 8
@@ -1427,7 +1452,11 @@ func TestVerif(t *testing.T) {
 		for i := 0; i < run.Scale(300, 20000); i++ {
 			c := genScript(r, false)
 			c.DefaultPolicy, c.MaxRetry, c.Min, c.Max, c.Tbl, c.Dflt, c.Pred = true, dmr, dmin, dmax, nil, 0, ""
-			c.Cancel, c.Deadline = -1, false
+			if c.hasCancel() {
+				// aim into the default policy's pauses; odd instant (a tie with a random pause is harmless:
+				// the result is the context's error either way)
+				c.Cancel = int64(r.Intn(int(dmax/1000)*3))*2000 + 1
+			}
 			scriptCaseRun(t, c)
 		}
 	}
